@@ -467,10 +467,64 @@ def snapshotExact (ridOf : Key → Nat) (mc : MonCfg) (w : World) (got : List En
 
 /-! ### Concurrent change during one `Snapshot()` call -/
 
-/-- One `Snapshot()` call reads the informers one after the other while their watch threads go on.
-`pre i` = events informer `i` had handled when the call read it (a prefix of `evs i`). -/
-def concurrentRead (cfg : Cfg) (inits : List (List Obj)) (evs : List (List WatchEv)) (cut : List Nat) : List (List Entry) :=
-  (inits.zip (evs.zip cut)).map (fun p => runInformer cfg p.1 (p.2.1.take p.2.2))
+/-- Actions of the threads involved in one `Snapshot()` call: the watch thread of informer `i`
+handles its next event (one `cacheLock` critical section), or the reader takes the next informer's
+`getCachedObjects()` (one `cacheLock.RLock` critical section). -/
+inductive CAct
+  | w (i : Nat)
+  | r
+deriving Repr
+
+/-- `caches i` / `pending i` / `handled i`: informer `i`'s cache, its not yet handled events, the
+number it has handled; `next`: the informer the reader takes next; `acc`: `objects` so far;
+`cut i`: how many events informer `i` had handled when it was read. -/
+structure CState where
+  caches : Nat → Cache
+  pending : Nat → List WatchEv
+  handled : Nat → Nat
+  n : Nat
+  next : Nat := 0
+  acc : List Entry := []
+  cut : Nat → Nat := fun _ => 0
+
+def cstep (cfg : Cfg) (s : CState) : CAct → CState
+  | .w i =>
+    match s.pending i with
+    | [] => s
+    | ev :: rest =>
+      { s with
+        caches := fun j => if j = i then (handleWatch cfg (s.caches i) ev.1 ev.2).1 else s.caches j
+        pending := fun j => if j = i then rest else s.pending j
+        handled := fun j => if j = i then s.handled i + 1 else s.handled j }
+  | .r =>
+    if s.next < s.n then
+      { s with acc := s.acc ++ s.caches s.next
+               cut := fun j => if j = s.next then s.handled s.next else s.cut j
+               next := s.next + 1 }
+    else s
+
+def crun (cfg : Cfg) (s : CState) (sched : List CAct) : CState := sched.foldl (cstep cfg) s
+
+/-- informer `i`'s cache after its first `k` events -/
+def cacheAt (cfg : Cfg) (init : Nat → Cache) (evs : Nat → List WatchEv) (i k : Nat) : Cache :=
+  ((evs i).take k).foldl (fun c ev => (handleWatch cfg c ev.1 ev.2).1) (init i)
+
+def cinit (init : Nat → Cache) (evs : Nat → List WatchEv) (n : Nat) : CState :=
+  { caches := init, pending := evs, handled := fun _ => 0, n := n }
+
+/-- restriction of an observed snapshot to the scope of one static informer (namespace `n`) and
+the spec for that scope in a given world -/
+def concExact (ridOf : Key → Nat) (mc : MonCfg) (worlds : List World) (got : List Entry) : Bool :=
+  (got.zip got.tail).all (fun p => lessGo ridOf p.1 p.2) &&
+  got.all (fun e => mc.nss.contains e.key.ns) &&
+  (dedupNames mc.nss).all (fun n =>
+    let part := got.filter (fun e => e.key.ns == n)
+    worlds.any (fun w =>
+      let want := specMatching { mc with nss := [n] } w
+      part.length == want.length &&
+      part.all (fun e => want.any (fun o =>
+        let x := mkEntry mc.cfg o
+        e.key == x.key && e.obj == x.obj && e.fr == x.fr))))
 
 /-! ### Spec-level predicate for one observed execution (`oracle exec`) -/
 
